@@ -3,8 +3,11 @@
 //        sort-exh (all permutations of n<=N distinct keys + all sequences over 3 keys of length<=8), sort-rand (random lists up to 2000 elements)
 // Monitors: reference model = array of (key, unique id); after every operation size/isEmpty/front/back, forward and backward iteration, find for every
 // universe key (first match), capacity() >= size(), the returned iterator / reference (insert -> new element, remove -> successor, append -> the new
-// element by address), ==/!= against a second live list; structural walker through -fno-access-control (links, free list, 4-slot blocks, Array
-// begin/end/capacity); elements carry a tracked Elem (exactly-once construction/destruction per address); ASan/UBSan/LSan.
+// element by address), ==/!= against a second live list; elements carry a tracked Elem (exactly-once construction/destruction per address); ASan/UBSan/LSan.
+// Normal flavour only (-fno-access-control; everything inside #ifndef VERIF_NO_PRIVATE): structural walker (order links, acyclic free list disjoint from
+// the live items, every live and free item inside a block of this container, no two items overlapping, live + free == slots of the blocks where the slot
+// count of a block is derived from vh::allocSize(block) - no slot count is assumed; Array begin/end/capacity coherent). With -DVERIF_NO_PRIVATE the
+// harness uses the public API only: all oracles above stay, the walker and the counter structure_walks are absent.
 #include "vh.hpp"
 #include <nstd/List.hpp>
 #include <nstd/Array.hpp>
@@ -45,22 +48,53 @@ private:
   PT(const PT&); PT& operator=(const PT&);
 };
 
+#ifndef VERIF_NO_PRIVATE
 struct PtrSet {
   const void** tab; size_t cap, n;
   PtrSet() : tab(0), cap(0), n(0) {}
   ~PtrSet() { free(tab); }
   void reset(size_t expect) { size_t want = 64; while (want < expect * 3) want *= 2; if (want > cap) { free(tab); tab = (const void**)malloc(want * sizeof(void*)); cap = want; } memset(tab, 0, cap * sizeof(void*)); n = 0; }
   size_t slot(const void* p) const { return (size_t)(((u64)(uintptr_t)p >> 3) * 0x9e3779b97f4a7c15ULL >> 20) & (cap - 1); }
-  bool add(const void* p) { size_t s = slot(p); while (tab[s]) { if (tab[s] == p) return false; s = (s + 1) & (cap - 1); } tab[s] = p; ++n; return true; }
+  void grow() { const void** ot = tab; size_t oc = cap; cap *= 2; tab = (const void**)calloc(cap, sizeof(void*)); n = 0; for (size_t i = 0; i < oc; ++i) if (ot[i]) add(ot[i]); free(ot); }
+  bool add(const void* p) { if ((n + 1) * 2 > cap) grow(); size_t s = slot(p); while (tab[s]) { if (tab[s] == p) return false; s = (s + 1) & (cap - 1); } tab[s] = p; ++n; return true; }
   bool has(const void* p) const { size_t s = slot(p); while (tab[s]) { if (tab[s] == p) return true; s = (s + 1) & (cap - 1); } return false; }
 };
 
+// Pool accounting of the walker. Nothing about the number of slots per block is assumed: a block is one heap allocation, its exact size comes from
+// vh::allocSize (sanitizer builds; 0 = unknown, e.g. the plain -O2 build: every size-dependent sub-check is skipped then). From the library's own
+// declarations only sizeof(ItemBlock) (the header in front of the slots) and the slot width are used.
+struct BlkInfo { const char* start; size_t size, refOff, items; };
+struct PoolAcct {
+  Vec<BlkInfo> blk; bool sized;
+  PoolAcct() : sized(false) {}
+  static int cmp(const void* a, const void* b) { const char* x = ((const BlkInfo*)a)->start; const char* y = ((const BlkInfo*)b)->start; return x < y ? -1 : x > y ? 1 : 0; }
+  void begin() { blk.clear(); sized = true; }
+  void addBlock(const void* p) { BlkInfo b = { (const char*)p, allocSize(p), 0, 0 }; if (!b.size) sized = false; blk.push(b); }
+  void seal() { if (blk.n > 1) qsort(blk.d, blk.n, sizeof(BlkInfo), cmp); }
+  // the block whose allocation holds the bytes [p, p + bytes) behind its header, or 0
+  BlkInfo* locate(const void* p, size_t hdr, size_t bytes) {
+    const char* c = (const char*)p; size_t lo = 0, hi = blk.n;
+    while (lo < hi) { size_t mid = (lo + hi) / 2; if (blk[mid].start <= c) lo = mid + 1; else hi = mid; }
+    if (!lo) return 0;
+    BlkInfo& b = blk[lo - 1]; size_t off = (size_t)(c - b.start);
+    return off >= hdr && off + bytes <= b.size ? &b : 0;
+  }
+  // two distinct items of one block must be a whole number of slot widths apart (else they overlap)
+  bool place(BlkInfo* b, const void* p, size_t bytes) { size_t off = (size_t)((const char*)p - b->start); if (!b->items++) { b->refOff = off; return true; } size_t d = off > b->refOff ? off - b->refOff : b->refOff - off; return d % bytes == 0; }
+  size_t slots(size_t hdr, size_t bytes) const { size_t t = 0; for (size_t i = 0; i < blk.n; ++i) if (blk[i].size >= hdr) t += (blk[i].size - hdr) / bytes; return t; }
+};
+static long g_sizedWalks = 0; static bool g_slotsPerBlockSeen[65];
+#endif
+
 static char g_keybuf[220];
 static const char* key(const char* what) { snprintf(g_keybuf, sizeof g_keybuf, "%s/%s", (const char*)ctx, what); return g_keybuf; }
+#ifndef VERIF_NO_PRIVATE
 static long g_walks = 0;
+#endif
 
+#ifndef VERIF_NO_PRIVATE
 // linked containers (List, PoolList) share the node bookkeeping: walk order list, free list, blocks
-template <class C, class Item, class Block> static void walkLinked(C& c, size_t modelN, size_t slotBytes, PtrSet& live, PtrSet& slots) {
+template <class C, class Item, class Block> static void walkLinked(C& c, size_t modelN, size_t slotBytes, PtrSet& live, PtrSet& freeSet, PoolAcct& acct) {
   if (c._end.item != &c.endItem) fail(key("structure"), "_end does not designate the sentinel");
   live.reset(modelN + 4);
   Item* prev = 0; size_t n = 0;
@@ -73,26 +107,48 @@ template <class C, class Item, class Block> static void walkLinked(C& c, size_t 
   }
   if (c.endItem.prev != prev) fail(key("structure"), "sentinel prev is not the last item");
   if (n != modelN || c._size != n) fail(key("structure"), "list holds %lu items, _size %lu, model %lu", (unsigned long)n, (unsigned long)c._size, (unsigned long)modelN);
+  // blocks and free list: free and live items are disjoint, the free list ends, every item lies in a block of this list and no two items overlap;
+  // with known block sizes: every slot of every block is either live or free
   size_t nb = 0;
   for (Block* bl = c.blocks; bl; bl = bl->next) if (++nb > 10000000) fail(key("structure"), "block list does not end");
-  slots.reset(nb * 4 + 4);
-  for (Block* bl = c.blocks; bl; bl = bl->next) { char* base = (char*)(bl + 1); for (int s = 0; s < 4; ++s) slots.add(base + s * slotBytes); }
+  acct.begin();
+  for (Block* bl = c.blocks; bl; bl = bl->next) acct.addBlock(bl);
+  acct.seal();
+  freeSet.reset(16);
   size_t nf = 0;
   for (Item* f = c.freeItem; f; f = f->prev) {
     if (live.has(f)) fail(key("structure"), "free list contains a live item");
-    if (!slots.has(f)) fail(key("structure"), "free list contains a pointer that is not a slot of this list's blocks");
-    if (++nf > nb * 4) fail(key("structure"), "free list longer than the allocated slots (cycle)");
+    if (acct.sized) {
+      BlkInfo* b = acct.locate(f, sizeof(Block), slotBytes);
+      if (!b) fail(key("structure"), "free list contains a pointer that is not a slot of this list's blocks");
+      if (!acct.place(b, f, slotBytes)) fail(key("structure"), "a free item overlaps another item of its block");
+    }
+    if (!freeSet.add(f)) fail(key("structure"), "free list visits an item twice (cycle)");
+    ++nf;
   }
-  for (Item* i = c._begin.item; i != &c.endItem; i = i->next) if (!slots.has(i)) fail(key("structure"), "live item is not a slot of this list's blocks");
-  if (nf + n != nb * 4) fail(key("structure"), "%lu live + %lu free slots != 4 * %lu blocks", (unsigned long)n, (unsigned long)nf, (unsigned long)nb);
+  if (acct.sized) {
+    for (Item* i = c._begin.item; i != &c.endItem; i = i->next) {
+      BlkInfo* b = acct.locate(i, sizeof(Block), slotBytes);
+      if (!b) fail(key("structure"), "live item is not a slot of this list's blocks");
+      if (!acct.place(b, i, slotBytes)) fail(key("structure"), "a live item overlaps another item of its block");
+    }
+    size_t total = acct.slots(sizeof(Block), slotBytes);
+    if (nf + n != total) fail(key("structure"), "%lu live + %lu free items != %lu slots in %lu blocks (slot counts derived from the block sizes)", (unsigned long)n, (unsigned long)nf, (unsigned long)total, (unsigned long)nb);
+    for (size_t i = 0; i < acct.blk.n; ++i) { size_t per = (acct.blk[i].size - sizeof(Block)) / slotBytes; g_slotsPerBlockSeen[per > 64 ? 64 : per] = true; }
+    ++g_sizedWalks;
+  }
   ++g_walks;
 }
+#endif
 
 // ================================================================ List
 struct ListCk {
-  typedef List<Val> C; typedef C::Iterator It; typedef C::Item Item; typedef C::ItemBlock Block;
+  typedef List<Val> C; typedef C::Iterator It;
   struct Box { C* c; Model ref; Box() : c(0) {} };
-  PtrSet live, slots;
+#ifndef VERIF_NO_PRIVATE
+  typedef C::Item Item; typedef C::ItemBlock Block;
+  PtrSet live, freeSet; PoolAcct acct;
+#endif
 
   It iterAt(C& c, size_t idx) { It it = c.begin(); for (size_t i = 0; i < idx; ++i) { if (it == c.end()) fail(key("iteration"), "iteration ends after %lu elements, model has more", (unsigned long)i); ++it; } return it; }
   size_t indexOf(C& c, const It& x, size_t limit) { size_t i = 0; for (It it = c.begin();; ++it, ++i) { if (it == x) return i; if (it == c.end() || i > limit) return npos; } }
@@ -129,7 +185,11 @@ struct ListCk {
       cnt("finds");
     }
   }
-  void structure(Box& b) { walkLinked<C, Item, Block>(*b.c, b.ref.n, sizeof(Item), live, slots); }
+#ifndef VERIF_NO_PRIVATE
+  void structure(Box& b) { walkLinked<C, Item, Block>(*b.c, b.ref.n, sizeof(Item), live, freeSet, acct); }
+#else
+  void structure(Box&) {}   // public API only: no structural walk
+#endif
   void all(Box& b, int universe) { contents(*b.c, b.ref); structure(b); finds(*b.c, b.ref, universe); }
   static const char* relation(const Model& a, const Model& b) { if (a.n != b.n) return "sizes-differ"; if (keysEq(a, b)) return a.n ? "equal" : "both-empty"; return "same-size-different-values"; }
   void equality(Box& a, Box& b) {
@@ -246,15 +306,19 @@ struct ArrayCk {
   struct Box { C* c; Model ref; usize minCap; Box() : c(0), minCap(0) {} };
 
   It iterAt(C& c, size_t idx) { It it = c.begin(); for (size_t i = 0; i < idx; ++i) { if (it == c.end()) fail(key("iteration"), "iteration ends after %lu elements, model has more", (unsigned long)i); ++it; } return it; }
+  // state class "storage allocated" through the public pointer conversion (null while nothing was allocated)
+  static bool allocated(C& c) { Val* p = c; return p != 0; }
 
   void contents(Box& b) {
     C& c = *b.c; const C& cc = c; const Model& ref = b.ref;
     if (c.size() != ref.n) fail(key("size"), "size() %lu != model %lu", (unsigned long)c.size(), (unsigned long)ref.n);
     if (c.isEmpty() != (ref.n == 0)) fail(key("isEmpty"), "isEmpty() %d with model size %lu", (int)c.isEmpty(), (unsigned long)ref.n);
     if (c.capacity() < c.size()) fail(key("capacity"), "capacity() %lu < size() %lu", (unsigned long)c.capacity(), (unsigned long)c.size());
+#ifndef VERIF_NO_PRIVATE
     // private state: begin/end/capacity coherent
     if ((c._begin.item == 0) != (c._end.item == 0)) fail(key("structure"), "only one of begin/end is null");
     if (c._begin.item && (usize)(c._end.item - c._begin.item) > c._capacity) fail(key("structure"), "end - begin exceeds _capacity");
+#endif
     size_t i = 0;
     for (It it = cc.begin(), e = cc.end(); it != e; ++it, ++i) {
       if (i >= ref.n) fail(key("iteration"), "forward iteration yields more than %lu elements", (unsigned long)ref.n);
@@ -285,10 +349,14 @@ struct ArrayCk {
       cnt("finds");
     }
   }
+  #ifndef VERIF_NO_PRIVATE
   void all(Box& b, int universe) { contents(b); finds(b, universe); ++g_walks; }
+#else
+  void all(Box& b, int universe) { contents(b); finds(b, universe); }
+#endif
 
   void opAppend(Box& b, long k, long uid) {
-    C& c = *b.c; bool grow = c.size() + 1 > c.capacity() || !c._begin.item;
+    C& c = *b.c; bool grow = c.size() + 1 > c.capacity() || !allocated(c);
     setctxf("Array.append/%s", grow ? "growing" : "in-place"); hist.addf("append(%ld #%ld)   [size %lu capacity %lu]\n", k, uid, (unsigned long)c.size(), (unsigned long)c.capacity());
     if (grow) cnt("growths"); Val v(k, uid); Val& r = c.append(v); SEnt e = { k, uid }; b.ref.push(e);
     if (c.size() != b.ref.n) fail(key("size"), "size() %lu, model %lu", (unsigned long)c.size(), (unsigned long)b.ref.n);
@@ -296,7 +364,7 @@ struct ArrayCk {
     cnt("op_append");
   }
   void opAppendBlock(Box& b, Rng& r, size_t cnt_, long k, long& uid) {
-    C& c = *b.c; bool grow = c.size() + cnt_ > c.capacity() || (!c._begin.item && cnt_);
+    C& c = *b.c; bool grow = c.size() + cnt_ > c.capacity() || (!allocated(c) && cnt_);
     setctxf("Array.append(T*,n)/%s%s", cnt_ ? "" : "n=0/", grow ? "growing" : "in-place"); hist.addf("append(block of %lu)   [size %lu capacity %lu]\n", (unsigned long)cnt_, (unsigned long)c.size(), (unsigned long)c.capacity());
     if (grow) cnt("growths");
     Val* blk = (Val*)malloc(cnt_ * sizeof(Val) + (cnt_ ? 0 : 1));   // exactly-sized: any over-read is an ASan report
@@ -306,7 +374,7 @@ struct ArrayCk {
     free(blk); cnt("op_append_block");
   }
   void opAppendArray(Box& b, Box& o) {
-    C& c = *b.c; bool grow = c.size() + o.ref.n > c.capacity() || (!c._begin.item && o.ref.n);
+    C& c = *b.c; bool grow = c.size() + o.ref.n > c.capacity() || (!allocated(c) && o.ref.n);
     setctxf("Array.append(Array)/%s%s", o.ref.n ? "" : "empty-arg/", grow ? "growing" : "in-place"); hist.addf("append(other array of %lu)   [size %lu capacity %lu]\n", (unsigned long)o.ref.n, (unsigned long)c.size(), (unsigned long)c.capacity());
     if (grow) cnt("growths");
     if (&o == &b) { setctxf("Array.append(Array)/arg=self/%s", grow ? "growing" : "in-place"); cnt("op_append_array_self"); }
@@ -327,18 +395,18 @@ struct ArrayCk {
   void opRemoveEnd(Box& b, bool front) { setctx(front ? "Array.removeFront" : "Array.removeBack"); hist.add(front ? "removeFront\n" : "removeBack\n"); It r = front ? b.c->removeFront() : b.c->removeBack(); if (front) b.ref.removeAt(0); else b.ref.pop(); if (front ? r != b.c->begin() : r != b.c->end()) fail(key("returned-iterator"), front ? "removeFront did not return begin()" : "removeBack did not return end()"); cnt("op_remove_end"); }
   void opReserve(Box& b, usize want) {
     C& c = *b.c; usize cap = c.capacity(); const char* cls = want < cap ? "below-capacity" : want == cap ? "equal-capacity" : "above-capacity";
-    setctxf("Array.reserve/%s%s", cls, c._begin.item ? "" : "/unallocated"); hist.addf("reserve(%lu)   [size %lu capacity %lu]\n", (unsigned long)want, (unsigned long)c.size(), (unsigned long)cap); setItem("reserve_classes", (const char*)ctx + 14);
+    setctxf("Array.reserve/%s%s", cls, allocated(c) ? "" : "/unallocated"); hist.addf("reserve(%lu)   [size %lu capacity %lu]\n", (unsigned long)want, (unsigned long)c.size(), (unsigned long)cap); setItem("reserve_classes", (const char*)ctx + 14);
     c.reserve(want); if (c.capacity() < want) fail(key("capacity"), "capacity() %lu after reserve(%lu)", (unsigned long)c.capacity(), (unsigned long)want);
     if (want > b.minCap) b.minCap = want; cnt("op_reserve");
   }
   void opResize(Box& b, size_t want, bool dflt, long k, long uid) {
-    C& c = *b.c; size_t n = b.ref.n; const char* cls = want < n ? "shrink" : want == n ? "same" : want > c.capacity() || !c._begin.item ? "grow-reallocating" : "grow-in-place";
+    C& c = *b.c; size_t n = b.ref.n; const char* cls = want < n ? "shrink" : want == n ? "same" : want > c.capacity() || !allocated(c) ? "grow-reallocating" : "grow-in-place";
     setctxf("Array.resize/%s%s", cls, dflt ? "/default-value" : ""); hist.addf("resize(%lu%s)   [size %lu capacity %lu]\n", (unsigned long)want, dflt ? "" : ", value", (unsigned long)n, (unsigned long)c.capacity()); setItem("resize_classes", cls);
     if (dflt) { c.resize(want); k = 0; uid = -1; } else { Val v(k, uid); c.resize(want, v); }
     while (b.ref.n > want) b.ref.pop(); SEnt e = { k, uid }; while (b.ref.n < want) b.ref.push(e);
     cnt("op_resize");
   }
-  void opClear(Box& b) { setctxf("Array.clear/%s", b.ref.n ? "non-empty" : b.c->_begin.item ? "empty" : "unallocated"); hist.add("clear\n"); b.c->clear(); b.ref.clear(); cnt("op_clear"); }
+  void opClear(Box& b) { setctxf("Array.clear/%s", b.ref.n ? "non-empty" : allocated(*b.c) ? "empty" : "unallocated"); hist.add("clear\n"); b.c->clear(); b.ref.clear(); cnt("op_clear"); }
 };
 
 static Array<Val>* newArray(Rng& r, usize& minCap, Text& h) { if (r.chance(1, 2)) { minCap = 0; h.add("new Array()\n"); return new Array<Val>; } minCap = (usize)r.below(21); h.addf("new Array(%lu)\n", (unsigned long)minCap); Array<Val>* a = new Array<Val>(minCap); if (a->capacity() < minCap) fail("Array.constructor/capacity", "Array(%lu) reports capacity() %lu", (unsigned long)minCap, (unsigned long)a->capacity()); return a; }
@@ -373,11 +441,11 @@ static void arrayHistory(ArrayCk& ck, Rng& r, long idx) {
     case 7: ck.opClear(m); break;
     case 8: { usize cap = m.c->capacity(); usize want; switch (r.below(5)) { case 0: want = cap; break; case 1: want = cap + 1; break; case 2: want = cap ? cap - 1 : 0; break; case 3: want = 0; break; default: want = (usize)r.below(cap + 12); break; } ck.opReserve(m, want); break; }
     case 9: { usize cap = m.c->capacity(); size_t want; switch (r.below(7)) { case 0: want = n; break; case 1: want = 0; break; case 2: want = cap; break; case 3: want = cap + 1; break; case 4: want = n ? n - 1 : 0; break; case 5: want = n + 1; break; default: want = r.below(n + 10); break; } if (want > n + 64) want = n + 64; if (want > 300 && want > n) want = n; ck.opResize(m, want, r.chance(1, 3), k, uid++); removed = removed || want < n; break; }
-    case 10: { setctxf("Array.swap/%s-%s", m.c->_begin.item ? (n ? "nonempty" : "empty") : "unallocated", other.c->_begin.item ? (other.ref.n ? "nonempty" : "empty") : "unallocated"); hist.addf("swap(other)  [sizes %lu/%lu]\n", (unsigned long)n, (unsigned long)other.ref.n); setItem("swap_classes", (const char*)ctx + 11); m.c->swap(*other.c); m.ref.swap(other.ref); usize t = m.minCap; m.minCap = other.minCap; other.minCap = t; otherTouched = true; cnt("op_swap"); break; }
-    case 11: { setctxf("Array.copy-construct/%s", m.c->_begin.item ? (n ? "non-empty" : "empty") : m.c->capacity() ? "unallocated-with-capacity" : "unallocated"); setItem("copy_classes", (const char*)ctx + 21); hist.add("copy-construct; mutate the copy; destroy it\n"); Box cp; cp.c = new C(*m.c); cp.ref = m.ref; cp.minCap = 0; ck.all(cp, universe);
+    case 10: { setctxf("Array.swap/%s-%s", ArrayCk::allocated(*m.c) ? (n ? "nonempty" : "empty") : "unallocated", ArrayCk::allocated(*other.c) ? (other.ref.n ? "nonempty" : "empty") : "unallocated"); hist.addf("swap(other)  [sizes %lu/%lu]\n", (unsigned long)n, (unsigned long)other.ref.n); setItem("swap_classes", (const char*)ctx + 11); m.c->swap(*other.c); m.ref.swap(other.ref); usize t = m.minCap; m.minCap = other.minCap; other.minCap = t; otherTouched = true; cnt("op_swap"); break; }
+    case 11: { setctxf("Array.copy-construct/%s", ArrayCk::allocated(*m.c) ? (n ? "non-empty" : "empty") : m.c->capacity() ? "unallocated-with-capacity" : "unallocated"); setItem("copy_classes", (const char*)ctx + 21); hist.add("copy-construct; mutate the copy; destroy it\n"); Box cp; cp.c = new C(*m.c); cp.ref = m.ref; cp.minCap = 0; ck.all(cp, universe);
         setctx("Array.copy-construct/independence"); if (r.chance(1, 2)) { cp.c->clear(); cp.ref.clear(); } else if (cp.ref.n) { cp.c->removeFront(); cp.ref.removeAt(0); } { Val v(77, -9); cp.c->append(v); SEnt e = { 77, -9 }; cp.ref.push(e); }
         ck.all(cp, universe); ck.all(m, universe); delete cp.c; ck.all(m, universe); cnt("op_copy_construct"); break; }
-    case 12: { setctxf("Array.operator=/onto-%s/from-%s", other.c->_begin.item ? (other.ref.n ? "non-empty" : "empty") : "unallocated", m.c->_begin.item ? (n ? "non-empty" : "empty") : "unallocated"); hist.addf("other = m   [other size %lu capacity %lu; m size %lu capacity %lu]\n", (unsigned long)other.ref.n, (unsigned long)other.c->capacity(), (unsigned long)n, (unsigned long)m.c->capacity()); *other.c = *m.c; other.ref = m.ref; otherTouched = true; cnt("op_assign"); break; }
+    case 12: { setctxf("Array.operator=/onto-%s/from-%s", ArrayCk::allocated(*other.c) ? (other.ref.n ? "non-empty" : "empty") : "unallocated", ArrayCk::allocated(*m.c) ? (n ? "non-empty" : "empty") : "unallocated"); hist.addf("other = m   [other size %lu capacity %lu; m size %lu capacity %lu]\n", (unsigned long)other.ref.n, (unsigned long)other.c->capacity(), (unsigned long)n, (unsigned long)m.c->capacity()); *other.c = *m.c; other.ref = m.ref; otherTouched = true; cnt("op_assign"); break; }
     case 13: { if (r.chance(1, 2)) { hist.add("swap roles of m and other\n"); Box* t = mp; mp = op; op = t; } else { setctx("Array.destructor"); hist.add("destroy other; "); delete other.c; setctx("Array.constructor"); other.c = newArray(r, other.minCap, hist); other.ref.clear(); } otherTouched = true; break; }
     default: if (n <= 300) for (int j = 0; j < 5; ++j) ck.opAppend(m, (long)r.below((u64)universe), uid++); break;
     }
@@ -431,9 +499,12 @@ static void arrayGrow() {
 // ================================================================ PoolList
 struct PEnt { long uid; int nargs; };
 struct PoolCk {
-  typedef PoolList<PT> C; typedef C::Iterator It; typedef C::Item Item; typedef C::ItemBlock Block;
+  typedef PoolList<PT> C; typedef C::Iterator It;
   struct Box { C* c; Vec<PEnt> ref; Box() : c(0) {} };
-  PtrSet live, slots;
+#ifndef VERIF_NO_PRIVATE
+  typedef C::Item Item; typedef C::ItemBlock Block;
+  PtrSet live, freeSet; PoolAcct acct;
+#endif
   It iterAt(C& c, size_t idx) { It it = c.begin(); for (size_t i = 0; i < idx; ++i) { if (it == c.end()) fail(key("iteration"), "iteration ends after %lu elements, model has more", (unsigned long)i); ++it; } return it; }
   size_t indexOf(C& c, const It& x, size_t limit) { size_t i = 0; for (It it = c.begin();; ++it, ++i) { if (it == x) return i; if (it == c.end() || i > limit) return npos; } }
   static void checkElem(const PT& e, const PEnt& m, size_t pos, const char* dir) {
@@ -450,7 +521,9 @@ struct PoolCk {
     if (i != ref.n) fail(key("iteration"), "forward iteration yields %lu elements, model %lu", (unsigned long)i, (unsigned long)ref.n);
     if (ref.n) { It it = cc.end(); for (size_t j = ref.n; j-- > 0;) { --it; checkElem(*it, ref[j], j, "backward"); } if (it != cc.begin()) fail(key("iteration"), "backward iteration does not end at begin()"); }
     else if (cc.begin() != cc.end()) fail(key("iteration"), "begin() != end() on an empty list");
-    walkLinked<C, Item, Block>(c, ref.n, sizeof(Item) + sizeof(PT), live, slots);
+#ifndef VERIF_NO_PRIVATE
+    walkLinked<C, Item, Block>(c, ref.n, sizeof(Item) + sizeof(PT), live, freeSet, acct);   // a slot = the link header followed by the element
+#endif
     cnt("elements_compared", (long)ref.n * 2);
   }
   void opAppend(Box& b, int nargs, long uid) {
@@ -602,7 +675,10 @@ int main(int argc, char** argv) {
   else if (!strcmp(m, "sort-exh")) sortExhaustive(opts.scale > 1 ? (int)opts.scale : 8);
   else if (!strcmp(m, "sort-rand")) sortRandom();
   else harnessBug("unknown mode %s", m);
-  cnt("structure_walks", g_walks);
+#ifndef VERIF_NO_PRIVATE
+  cnt("structure_walks", g_walks); cnt("walks_with_block_sizes", g_sizedWalks);
+  for (int i = 0; i <= 64; ++i) if (g_slotsPerBlockSeen[i]) { char t[16]; snprintf(t, sizeof t, "%s%d", i < 64 ? "" : ">=", i); setItem("slots_per_block", t); }
+#endif
   leakCheck("Seq/leak");
   finish();
   return 0;
